@@ -255,7 +255,7 @@ macro_rules! set_fc_bit_field {
         pub fn $field(&mut self, val: bool) {
             let data = &mut self.buffer.as_mut()[field::FRAMECONTROL];
             let mut raw = LittleEndian::read_u16(data);
-            raw |= ((val as u16) << $bit);
+            raw = (raw & !(1 << $bit)) | ((val as u16) << $bit);
 
             data.copy_from_slice(&raw.to_le_bytes());
         }
